@@ -4,27 +4,30 @@
 
    C07_definitions: second conjunct = textbook areas of planar CONVEX quads / n-gons (hypotheses convex_quad / convex_fan
      are visible in the statement), global sums and means, per-vertex quantities, mesh-level cotangent weight.
-   C07_renumbering_partial - what is proved: (a) vertex renumbering sigma keeping the ORDER of the face list, of each face's
-     vertex list and of the edge list (edges may be stored swapped); (b) rotating one face's vertex list: area of every
-     polygon, normal/cotangents of a triangle, barycentre; (c) permuting and rotating the face list for the faces->vertices
-     accumulation with values and weights CARRIED ALONG.  GAPS (tested by the oracle / correspondence only):
-       - a renumbered mouette mesh stores its edges in another order: degree / defects are proved for the same edge order only;
-       - cotan_weights, mean_* (n=None), barycenter, euler, face_circumcenter, vertices->faces, corners->faces and the two
-         scatters are not in the conclusion of (a);
+   C07_renumbering_partial - what is proved (first conjunct = clauses (a)(b)(c), second = (a')(d) added in round 7):
+     (a)+(a') vertex renumbering sigma keeping the order of the face list and of each face's vertex list (edges may be
+     stored swapped): EVERY modelled quantity - per-edge/face/corner/cell lists and global numbers unchanged, per-vertex
+     lists moved with sigma; (d) the ORDER of the stored edge list is irrelevant to degree / border flags / angle defects
+     (so a renumbered mouette mesh, which re-sorts its edges, is covered by (a) then (d)); (b) rotating one face's vertex
+     list: area of every polygon, normal/cotangents of a triangle, barycentre; (c) permuting and rotating the face list for
+     the faces->vertices accumulation with values and weights CARRIED ALONG.  GAPS (tested by the oracle / correspondence only):
        - that the mesh's OWN corner angles / areas / normals rotate with a rotated face is stated for triangles and for the
          area only (face_corner_pairs of a rotated polygon is not), so (c) is not instantiated with model-computed weights;
-       - angle_defects, cotan_weights, corners->vertices, total_area under face reordering.
+       - angle_defects, cotan_weights, corners->vertices, total_area under REORDERING OF THE FACE LIST.
+   C07_interpolation_average: vertices->faces, faces->vertices (4 weightings) and corners->vertices (3 weightings + the
+     refused one) ARE the defining weighted averages, as closed forms of the generated bodies; corners->faces has only the
+     constant clause (C07_interpolate_constant).
    C07_circumcenter is conditional on a point being returned (the relative parallelism guard can return None for a
      needle-thin triangle); no totality statement.
    In C07_rigid_invariance / C07_scaling the angle_defects and vertex_normals clauses take the SAME angle list on both sides:
      they say these functions do not read coordinates otherwise; invariance of the angle values is the corner_pairs clause.
    The two `_refuted` theorems are recorded findings (known_findings.d/C07.json). *)
-From Coq Require Import ZArith List Bool Reals.
+From Coq Require Import ZArith List Bool Reals Permutation.
 Require Import MV.Lib.Base MV.C07.Model MV.C07.Gen MV.C07.Mesh MV.C07.Proofs_Base MV.C07.Proofs_Rigid MV.C07.Proofs_MeshRigid
   MV.C07.Proofs_Angles MV.C07.Proofs_Interp MV.C07.Proofs_GB MV.C07.Proofs_Renum MV.C07.Proofs_Count MV.C07.Proofs_GBfull
   MV.C07.Proofs_Findings MV.C07.Proofs_Circum MV.C07.Proofs_Keyed MV.C07.Proofs_RenumV MV.C07.Proofs_FacePerm
   MV.C07.Proofs_FanRot MV.C07.Proofs_RenumFull MV.C07.Proofs_MeshScale MV.C07.Proofs_C2F MV.C07.Proofs_Convex
-  MV.C07.Proofs_Global MV.C07.Proofs.
+  MV.C07.Proofs_Global MV.C07.Proofs MV.C07.Proofs_Renum3 MV.C07.Proofs_WAvg MV.C07.Proofs_R7.
 Import ListNotations.
 Open Scope R_scope.
 
@@ -181,6 +184,7 @@ Proof. exact scaling_proof. Qed.
 Print Assumptions C07_scaling.
 
 Theorem C07_renumbering_partial :
+(
   (* (a) renumbering the vertices by sigma (injective on the vertex range); the renumbered mesh may store an edge in
          either orientation.  Per-edge/face/corner/cell attributes are unchanged, per-vertex attributes move with sigma *)
   (forall (m m' : mesh R) (sigma : Z -> Z) (sw : Z * Z -> bool), wf_mesh m ->
@@ -232,8 +236,42 @@ Theorem C07_renumbering_partial :
      Forall wfd D -> Forall wfd D' -> drel D D' -> faces mm = d_faces D -> faces mm' = d_faces D' ->
      zlen (verts mm') = zlen (verts mm) ->
      interpolate_faces_to_vertices Rops (vzero Rops) (vadd Rops) (vscale Rops) (vdiv Rops) w (d_areas D') (d_angs D') mm' (d_vals D')
-     = interpolate_faces_to_vertices Rops (vzero Rops) (vadd Rops) (vscale Rops) (vdiv Rops) w (d_areas D) (d_angs D) mm (d_vals D)).
-Proof. exact renumbering_proof. Qed.
+     = interpolate_faces_to_vertices Rops (vzero Rops) (vadd Rops) (vscale Rops) (vdiv Rops) w (d_areas D) (d_angs D) mm (d_vals D))
+) /\
+(
+  (* (a') same renumbering sigma as clause (a): the remaining quantities.  Per-edge / per-face / per-corner lists and the
+          global numbers are unchanged; a per-vertex INPUT attribute is moved with sigma by the caller *)
+  (forall (m m' : mesh R) (sigma : Z -> Z) (sw : Z * Z -> bool), wf_mesh m ->
+     let nV := zlen (verts m) in
+     zlen (verts m') = nV ->
+     (forall u v, (0 <= u < nV)%Z -> (0 <= v < nV)%Z -> sigma u = sigma v -> u = v) ->
+     (forall v, (0 <= v < nV)%Z -> (0 <= sigma v < nV)%Z) ->
+     (forall v, in_rng m v -> P Rops m' (sigma v) = P Rops m v) ->
+     faces m' = map (map sigma) (faces m) -> cells m' = map (map sigma) (cells m) ->
+     edges m' = map (fun e => if sw e then (sigma (snd e), sigma (fst e)) else (sigma (fst e), sigma (snd e))) (edges m) ->
+     cotan_weights Rops m' = cotan_weights Rops m /\
+     (forall n, mean_edge_length Rops m' n = mean_edge_length Rops m n /\
+                mean_face_area Rops m' n = mean_face_area Rops m n /\
+                mean_cell_volume Rops m' n = mean_cell_volume Rops m n) /\
+     euler_characteristic m' = euler_characteristic m /\
+     face_circumcenter Rops m' = face_circumcenter Rops m /\
+     barycenter Rops m' = barycenter Rops m /\
+     (forall w ang cattr, average_corners_to_faces Rops 0 Rplus (smul_l Rops) Rdiv w ang m' cattr
+                          = average_corners_to_faces Rops 0 Rplus (smul_l Rops) Rdiv w ang m cattr) /\
+     (forall fattr, scatter_faces_to_corners 0 m' fattr = scatter_faces_to_corners 0 m fattr) /\
+     (forall vattr vattr' : list R, (forall v, (0 <= v < nV)%Z -> znth vattr' (sigma v) 0 = znth vattr v 0) ->
+        scatter_vertices_to_corners 0 m' vattr' = scatter_vertices_to_corners 0 m vattr /\
+        interpolate_vertices_to_faces Rops 0 Rplus (smul_l Rops) Rdiv m' vattr'
+        = interpolate_vertices_to_faces Rops 0 Rplus (smul_l Rops) Rdiv m vattr)) /\
+  (* (d) the ORDER in which the edge list is stored (a renumbered mouette mesh re-sorts it) does not matter to the
+         per-vertex quantities that read it *)
+  (forall m1 m2 : mesh R, zlen (verts m2) = zlen (verts m1) -> faces m2 = faces m1 ->
+     Permutation (edges m2) (edges m1) ->
+     (forall e, In e (edges m1) -> (0 <= fst e < zlen (verts m1))%Z /\ (0 <= snd e < zlen (verts m1))%Z) ->
+     degree m2 = degree m1 /\ border_flags m2 = border_flags m1 /\
+     (forall zb pi ang, angle_defects Rops zb pi ang m2 = angle_defects Rops zb pi ang m1))
+).
+Proof. exact renumbering_full_proof. Qed.
 Print Assumptions C07_renumbering_partial.
 
 Theorem C07_angle_sum :
@@ -277,6 +315,38 @@ Theorem C07_interpolate_constant :
      average_corners_to_faces Rops 0 Rplus (smul_l Rops) Rdiv w ang m (repeat c nC) = Some (repeat c nF)).
 Proof. exact interpolate_constant_proof. Qed.
 Print Assumptions C07_interpolate_constant.
+
+Theorem C07_interpolation_average :
+  (* vertices -> faces: the arithmetic mean of the face's vertex values *)
+  (forall (m : mesh R) (vattr : list R),
+     interpolate_vertices_to_faces Rops 0 Rplus (smul_l Rops) Rdiv m vattr
+     = map (fun F => Rsum (map (fun v => znth vattr v 0) F) / IZR (zlen F)) (faces m)) /\
+  (* faces -> vertices at vertex v, over the corners (c, f) at v: uniform  sum x_f / #corners;  sum  sum x_f;
+     area  sum x_f A_f / sum A_f;  angle  sum x_f theta_c / sum theta_c *)
+  (forall (w : weighting) (area ang : list R) (m : mesh R) (fattr : list R) (v : Z), (0 <= v < zlen (verts m))%Z ->
+     let cv := corners_at (enumerate (corners (faces m))) v in
+     let x := fun cf : Z * Z => znth fattr (snd cf) 0 in
+     znth (interpolate_faces_to_vertices Rops 0 Rplus (smul_l Rops) Rdiv w area ang m fattr) v 0
+     = match w with
+       | WUniform => Rsum (map x cv) / IZR (zlen cv)
+       | WSum => Rsum (map x cv)
+       | WArea => Rsum (map (fun cf => x cf * znth area (snd cf) 0) cv) / Rsum (map (fun cf => znth area (snd cf) 0) cv)
+       | WAngle => Rsum (map (fun cf => x cf * znth ang (fst cf) 0) cv) / Rsum (map (fun cf => znth ang (fst cf) 0) cv)
+       end) /\
+  (* corners -> vertices: the same with the corner's own value; the area weighting is refused *)
+  (forall (w : weighting) (ang : list R) (m : mesh R) (cattr : list R) (v : Z), (0 <= v < zlen (verts m))%Z ->
+     let cv := corners_at (enumerate (corners (faces m))) v in
+     let x := fun cf : Z * Z => znth cattr (fst cf) 0 in
+     match average_corners_to_vertices Rops 0 Rplus (smul_l Rops) Rdiv w ang m cattr with
+     | None => w = WArea
+     | Some l => znth l v 0 = match w with
+                              | WUniform => Rsum (map x cv) / IZR (zlen cv)
+                              | WSum => Rsum (map x cv)
+                              | _ => Rsum (map (fun cf => x cf * znth ang (fst cf) 0) cv) / Rsum (map (fun cf => znth ang (fst cf) 0) cv)
+                              end
+     end).
+Proof. exact interpolation_average_proof. Qed.
+Print Assumptions C07_interpolation_average.
 
 Theorem C07_circumcenter :
   forall A B C c : V3, 0 < n2 (cross (B -v A) (C -v A)) -> g_circumcenter Rops A B C = Some c ->
